@@ -50,6 +50,7 @@ class LocalDeme(AbstractDeme):
         return self._n_evals
 
     def _history_callback(self, intermediate_result) -> None:
-        ind = Individual(intermediate_result.x, problem=self._problem)
+        # scipy reuses the array behind intermediate_result.x between iterations, so it has to be copied.
+        ind = Individual(intermediate_result.x.copy(), problem=self._problem)
         ind.fitness = intermediate_result.fun
         self._run_history.append(ind)
